@@ -2,7 +2,9 @@
                    sum <addr> <p>            -> "<count> <first> <last> <xor-sum>"   (full enumeration)
                    nth <addr> <p> <k>        -> address or "none"
                    sz <p>                    -> computeNetSz
-                   all <a1> <p1> <a2> <p2> .. -> "<estimate> <count> <sorted addresses>" of discover_all / estimate *)
+                   all <a1> <p1> <a2> <p2> .. -> "<estimate> <count> <sorted addresses>" of discover_all / estimate
+                   ents (v4 <a> <p> | v6 <p128> | bad)* -> the same of discover_entries / estimate_entries false
+                        (the configured list as autoDiscover reads it: refused and malformed entries included) *)
 open Model
 
 let rec pos_of_int (n:int) : positive =
@@ -44,6 +46,18 @@ let () =
          let nets = pairs rest in
          let l = List.sort compare (List.rev (List.rev_map int_of_n (discover_all nets))) in
          print_string (string_of_int (int_of_n (estimate nets)));
+         print_char ' '; print_string (string_of_int (List.length l));
+         List.iter (fun x -> print_char ' '; print_string (string_of_int x)) l;
+         print_newline ()
+       | "ents" :: rest ->
+         let rec ents = function
+           | "v4" :: a :: p :: r -> EV4 (n_of_int (int_of_string a), n_of_int (int_of_string p)) :: ents r
+           | "v6" :: p :: r -> EV6 (n_of_int (int_of_string p)) :: ents r
+           | "bad" :: r -> EBad :: ents r
+           | _ -> [] in
+         let es = ents rest in
+         let l = List.sort compare (List.rev (List.rev_map int_of_n (discover_entries es))) in
+         print_string (string_of_int (int_of_n (estimate_entries false es)));
          print_char ' '; print_string (string_of_int (List.length l));
          List.iter (fun x -> print_char ' '; print_string (string_of_int x)) l;
          print_newline ()
